@@ -114,3 +114,18 @@ def read_powers(I, p):
 def vtable_of(I, static_name):
     d = I.get_static(static_name).val
     return I.read_ref(d.items[1])      # DerivedVtable { powers, format, conversion }
+
+# ---- running the real lexer / parser / evaluator from MIR on a (possibly partly symbolic) source string ----
+def parse_root(I, s):
+    """s: StrS.  returns Result<Tree>"""
+    p = I.call("Parser::<'_>::new", [VRef(Cell(s), [])])
+    return I.call("Parser::<'_>::parse_root", [p])
+def lex_all(I, s, limit=None):
+    lx = Cell(I.call("Lexer::<'_>::new", [VRef(Cell(s), [])]))
+    toks = []
+    for _ in range(limit or (s.blen() + 2)):
+        t = I.call("<Lexer<'_> as Iterator>::next", [VRef(lx, [])])
+        if t.variant == 'None': return toks, True
+        tok = t.items[0]
+        toks.append((tok.items[1].variant, I.concretize(tok.items[0].v, what='token length')))
+    return toks, False
